@@ -92,10 +92,11 @@ static KSI_MetaData *make_metadata(KSI_CTX *ctx, const std::string &client, cons
 	KSI_MetaData *md = nullptr;
 	if (KSI_MetaData_new(ctx, &md) != KSI_OK) return nullptr;
 	KSI_Utf8String *u = nullptr;
-	KSI_Utf8String_new(ctx, client.c_str(), client.size() + 1, &u); KSI_MetaData_setClientId(md, u);
-	if (!machine.empty()) { u = nullptr; KSI_Utf8String_new(ctx, machine.c_str(), machine.size() + 1, &u); KSI_MetaData_setMachineId(md, u); }
-	if (seq >= 0) { KSI_Integer *i = nullptr; KSI_Integer_new(ctx, (KSI_uint64_t)seq, &i); KSI_MetaData_setSequenceNr(md, i); }
-	if (req_time >= 0) { KSI_Integer *i = nullptr; KSI_Integer_new(ctx, (KSI_uint64_t)req_time, &i); KSI_MetaData_setRequestTimeInMicros(md, i); }
+	// the setters take their own reference
+	KSI_Utf8String_new(ctx, client.c_str(), client.size() + 1, &u); KSI_MetaData_setClientId(md, u); KSI_Utf8String_free(u);
+	if (!machine.empty()) { u = nullptr; KSI_Utf8String_new(ctx, machine.c_str(), machine.size() + 1, &u); KSI_MetaData_setMachineId(md, u); KSI_Utf8String_free(u); }
+	if (seq >= 0) { KSI_Integer *i = nullptr; KSI_Integer_new(ctx, (KSI_uint64_t)seq, &i); KSI_MetaData_setSequenceNr(md, i); KSI_Integer_free(i); }
+	if (req_time >= 0) { KSI_Integer *i = nullptr; KSI_Integer_new(ctx, (KSI_uint64_t)req_time, &i); KSI_MetaData_setRequestTimeInMicros(md, i); KSI_Integer_free(i); }
 	return md;
 }
 
